@@ -7,6 +7,7 @@ import NxsModel.Driver.Codec
 import NxsModel.Driver.Stream
 import NxsModel.Driver.Reasm
 import NxsModel.Driver.Config
+import NxsModel.Driver.Handshake
 open Nxs Nxs.Driver
 
 def dispatch (toks : List String) : String :=
@@ -20,6 +21,7 @@ def dispatch (toks : List String) : String :=
   | "stream" :: rest => (streamOp rest).getD "bad-op"
   | "reasm" :: rest => (reasmOp rest).getD "bad-op"
   | "cfg" :: rest => (cfgOp rest).getD "bad-op"
+  | "hs" :: rest => (hsOp rest).getD "bad-op"
   | _ => "bad-op"
 
 partial def loop (h : IO.FS.Stream) (out : IO.FS.Stream) : IO Unit := do
